@@ -10,9 +10,11 @@ Case line:  `<item> <ctor> <n> <v…> ; op ; op ; …`
   op    set i v | mod l r <modifier> | ask l r | lb l <pred> | lbr r <pred> | dbg
 Answer: constructor result and one answer per op, joined by ` ; `:
   raw   `{:?}` of the returned item / `some i`|`none` + the probe log / the `debug()` string
-  view  observable value / answer + `P` (every probe is the aggregate of a range starting at `l`) or `nm`
-        when the predicate is not monotone on the current contents (outside C02's domain)
-  spec  the plain-list specification's answer in the format of the view
+  view  observable value of an `ask`; for a search: answer (`nm` when the predicate is not monotone on the current
+        contents: outside C02's domain), the observable values of all probes in call order, `P`;
+        `ood` for `set`/`mod`/`ask` outside `0 ≤ l ≤ r < n` (the property says nothing there; the model's panic is in raw)
+  spec  the plain-list specification's answer in the format of the view; for the probes: the aggregates of the
+        ranges `[l, k]` (`[k, r]`) of the plain list at the model's ghost indices `k`
 -/
 open Rlib Rlib.Segtree
 
@@ -38,32 +40,36 @@ def stepOp (s : Seg T) (xs : List T) (toks : List String) : Option (String × St
   | ["set", i, v] =>
     match parseNat? i, io.parseVal v with
     | some i, some v =>
+      -- outside 0 ≤ i < n the property says nothing: view and spec are `ood`, the model's panic stays in raw
       let sp := match Spec.set xs i v with
         | .ok xs' => (".", xs')
-        | .error e => (e.toString, xs)
+        | .error _ => ("ood", xs)
       match s.set I i v with
-      | .ok s' => some (".", ".", sp.1, s', sp.2)
-      | .error e => some (e.toString, e.toString, sp.1, s, sp.2)
+      | .ok s' => some (".", sp.1, sp.1, s', sp.2)
+      | .error e => some (e.toString, sp.1, sp.1, s, sp.2)
     | _, _ => none
   | "mod" :: l :: r :: mt =>
     match parseNat? l, parseNat? r, io.parseMod mt with
     | some l, some r, some m =>
       let sp := match Spec.modify I xs l r m with
         | .ok xs' => (".", xs')
-        | .error e => (e.toString, xs)
+        | .error _ => ("ood", xs)
       match s.modify I l r m with
-      | .ok s' => some (".", ".", sp.1, s', sp.2)
-      | .error e => some (e.toString, e.toString, sp.1, s, sp.2)
+      | .ok s' => some (".", sp.1, sp.1, s', sp.2)
+      | .error e => some (e.toString, sp.1, sp.1, s, sp.2)
     | _, _, _ => none
   | ["ask", l, r] =>
     match parseNat? l, parseNat? r with
     | some l, some r =>
-      let sp := match Spec.ask I xs l r with
-        | .ok a => io.showA a
-        | .error e => e.toString
-      match s.ask I l r with
-      | .ok (x, s') => some (io.dbg x, io.showA (I.val x), sp, s', xs)
-      | .error e => some (e.toString, e.toString, sp, s, xs)
+      match Spec.ask I xs l r with
+      | .ok a =>
+        match s.ask I l r with
+        | .ok (x, s') => some (io.dbg x, io.showA (I.val x), io.showA a, s', xs)
+        | .error e => some (e.toString, e.toString, io.showA a, s, xs)
+      | .error _ =>
+        match s.ask I l r with
+        | .ok (x, s') => some (io.dbg x, "ood", "ood", s', xs)
+        | .error e => some (e.toString, "ood", "ood", s, xs)
     | _, _ => none
   | "lb" :: l :: pt =>
     match parseNat? l, io.parsePred pt with
@@ -72,10 +78,13 @@ def stepOp (s : Seg T) (xs : List T) (toks : List String) : Option (String × St
         let f := fun x => g (I.val x)
         let q := s.lowerBound I l f
         let raw := showIdx q.1 ++ " " ++ dbgList io (q.2.1.map (·.2))
-        if Spec.monoFwd I xs l f then
-          let pOk := q.2.1.all fun kp => io.showA (I.val kp.2) == io.showA (I.val (Spec.aggFwd I xs l kp.1))
-          some (raw, showIdx q.1 ++ (if pOk then " P" else " p!"), showIdx (Spec.first I xs l f) ++ " P", q.2.2, xs)
-        else some (raw, "nm", "nm", q.2.2, xs)
+        -- view: the observable values of the model's probes; spec: the aggregates of the ranges `[l, k]` of the plain
+        -- list the theorem `probes_are_ranges` promises (k = ghost index of the probe)
+        let pv := showListWith io.showA (q.2.1.map fun kp => I.val kp.2)
+        let ps := showListWith io.showA (q.2.1.map fun kp => I.val (Spec.aggFwd I xs l kp.1))
+        let mono := Spec.monoFwd I xs l f
+        some (raw, (if mono then showIdx q.1 else "nm") ++ " " ++ pv ++ (if pv == ps then " P" else " p!"),
+              (if mono then showIdx (Spec.first I xs l f) else "nm") ++ " " ++ ps ++ " P", q.2.2, xs)
       else none
     | _, _ => none
   | "lbr" :: r :: pt =>
@@ -85,10 +94,11 @@ def stepOp (s : Seg T) (xs : List T) (toks : List String) : Option (String × St
         let f := fun x => g (I.val x)
         let q := s.lowerBoundRev I r f
         let raw := showIdx q.1 ++ " " ++ dbgList io (q.2.1.map (·.2))
-        if Spec.monoBwd I xs r f then
-          let pOk := q.2.1.all fun kp => io.showA (I.val kp.2) == io.showA (I.val (Spec.aggBwd I xs kp.1 r))
-          some (raw, showIdx q.1 ++ (if pOk then " P" else " p!"), showIdx (Spec.last I xs r f) ++ " P", q.2.2, xs)
-        else some (raw, "nm", "nm", q.2.2, xs)
+        let pv := showListWith io.showA (q.2.1.map fun kp => I.val kp.2)
+        let ps := showListWith io.showA (q.2.1.map fun kp => I.val (Spec.aggBwd I xs kp.1 r))
+        let mono := Spec.monoBwd I xs r f
+        some (raw, (if mono then showIdx q.1 else "nm") ++ " " ++ pv ++ (if pv == ps then " P" else " p!"),
+              (if mono then showIdx (Spec.last I xs r f) else "nm") ++ " " ++ ps ++ " P", q.2.2, xs)
       else none
     | _, _ => none
   | ["dbg"] =>
